@@ -198,6 +198,9 @@ func splitFederation(annotated string) (*federation, error) {
 			}
 		}
 	}
+	for t := range fed.TypeSvcs {
+		sort.Strings(fed.TypeSvcs[t]) // independent of Go's map iteration order
+	}
 	svcNames := sortedKeys(svcSet)
 	// namespace membership: a service declares namespace N (and the link to it) iff it owns a field at or below N
 	var nsHas func(tn, s string, seen map[string]bool) bool
